@@ -25,6 +25,7 @@ C11(e) ==
     /\ e.err = FALSE /\ e.valid = TRUE                                   \* ToJSON succeeds with valid JSON
     /\ e.jkind = (IF e.cfg.kv THEN "object" ELSE "array")                \* array / object
     /\ e.eqmarshal = TRUE                                                \* identical to json.Marshal(container)
+    /\ e.stable = TRUE                                                   \* the bytes stay what they were while other containers are serialised
     \* loading into a fresh container of the same kind and configuration gives an equivalent one
     /\ e.loaderr = FALSE  /\ e.fsize = e.size  /\ SameContent(e.cfg, e.fresh, e.orig)  /\ e.fdrain = e.odrain
     /\ e.loaderr2 = FALSE /\ e.fsize2 = e.size /\ SameContent(e.cfg, e.fresh2, e.orig) /\ e.fdrain2 = e.odrain
